@@ -153,10 +153,10 @@ for _pid, _pre in (("C03", "c03_typecompat_sound"), ("C04", "c04_typecompat_comp
         "assumptions": ["types are well-formed GraphQL types (no `T!!`)", "Kani/CBMC/cadical are sound; rustc MIR is the semantics of the source"],
         "outside": _TC_OUT,
         "harnesses": [
-            H(_pre + "_d2", "nitrogql-checker", CK + "common.rs", "checker/typecompat_h.rs", "verif_typecompat", ["common::check_type_compatibility"],
-              "variable type and location type: all 6x6 well-formed wrapper nestings of depth <= 2 (symbolic selector), names symbolic over {A, B}; instantiation S = interned-name type", timeout=900, mem_gb=10),
-            H(_pre + "_d3", "nitrogql-checker", CK + "common.rs", "checker/typecompat_h.rs", "verif_typecompat", ["common::check_type_compatibility"],
-              "variable type and location type: every wrapper nesting of depth <= 3 over names {A, B} (symbolic)", tiers=("thorough",), timeout=3600, mem_gb=16),
+            H(_pre + "_d3_r%d" % _r, "nitrogql-checker", CK + "common.rs", "checker/typecompat_h.rs", "verif_typecompat", ["common::check_type_compatibility"],
+              "variable type: rows %s of the 11 well-formed wrapper nestings of depth <= 3; location type: all 11; chosen by symbolic selectors, names symbolic over {A, B}; instantiation S = interned-name type" % _rows,
+              timeout=1500, mem_gb=10)
+            for _r, _rows in ((0, "0-3"), (1, "4-7"), (2, "8-10"))
         ],
     }
 
